@@ -7,6 +7,11 @@ ALL = ["C%02d" % i for i in range(1, 21)]
 
 # id -> (category, technique, level text, level note, design ref, engine)
 CHECKS = {
+ "C01": ("model_checking",
+         "explicit-state BFS over tile sets (add-one-tile transitions, canonical sorted map) x formats x (format, compression) pairs; every state written by the real writer and decided by the real reader and an independent spec decoder",
+         "Every tile set reachable by adding up to 2 (quick) / 3 (thorough) tiles from a 14-coordinate x 5-payload alphabet (both sides of the 256 block grid, zoom gaps, duplicate payloads, 999/1000/1001 bytes) is written to all five formats; lookups on a probe set, streams over every advertised level and the independent decoder must all give the source mapping; declared format/compression compared where expressible; versatiles de-duplication checked structurally. Plus every accepted (format, compression) pair, named families (16900 tiles -> PMTiles leaf directories, full pyramid, 70/100 KiB payloads, level 31, level-14 sparse) and a sweep of tile counts around the PMTiles root/leaf switch.",
+         "Bounded to the alphabet and families listed in the evidence; tile sets whose level bounding box spans astronomically many 256-blocks (e.g. opposite corners of level 31) are excluded because the writers enumerate every block of the box; the empty tile set is outside the claim. Trusted base: flate2, brotli, SQLite and the harness's own decoders (cross-validated on the same space).",
+         "3/C01", "E-enum"),
  "C12": ("fault_enumeration",
          "exhaustive crash-point enumeration: every prefix of the recorded write-operation history and every byte cut of the next write, each image opened with the real reader",
          "The real VersaTilesWriter and PMTilesWriter are run over a recording DataWriterTrait for tile sets from the BFS alphabet (1..3 tiles, multi-block, leaf-directory family in thorough) and all three compressions; for every k and every byte cut (all cuts of writes <= 4 KiB and of both header writes; first/middle/last/8 KiB boundaries of larger writes) the crash image is opened with the real reader: it must fail to open or return every source tile intact and nothing else on the probe set. Conformance: logs replayed through the real DataWriterFile give byte-identical files for the full log and 16 prefixes.",
@@ -65,6 +70,7 @@ def main():
             "add_only": True,
         },
         "engines": [
+            {"name": "E-enum", "path": "harness/src/tilesets.rs, harness/src/codec.rs, harness/src/containers.rs, harness/src/checks/c01.rs", "serves_properties": ["C01", "C02", "C03", "C16"], "kind_free_text": "BFS over tile sets + bounded-exhaustive enumeration with independent codecs"},
             {"name": "E-fault", "path": "harness/src/checks/c12.rs", "serves_properties": ["C12"], "kind_free_text": "recording DataWriterTrait + crash-image materialiser, exhaustive over prefixes and byte cuts"},
             {"name": "E-order", "path": "harness/src/checks/c14.rs", "serves_properties": ["C14"], "kind_free_text": "completion-order explorer: gates in harness-supplied callbacks, manual poll_next, CPU-affinity-controlled concurrency window, DFS with prefix replay"},
             {"name": "E-sched", "path": "harness/src/bin/vsched.rs", "serves_properties": ["C13"], "kind_free_text": "controlled scheduler for real OS threads via symbol interposition of read/pread64/lseek64; stateless DFS, preemption bounded, replayable schedules"},
